@@ -139,7 +139,11 @@ func c19Scenarios(tier string) []*mc.Scenario {
 	add("writers-distinct-keys", c02Scenario(c02Cfg{w: writeCfg{hx.Mem, "none", [][]reqKind{{rCreate}}, "C19"}, other: []string{"/r/b"}}))
 	add("watcher-stalled-consumer", c05Scenario(c05Cfg{3, 2, "oldest", "stalled", [][]wop{{wCreateX, wUpdateX, wDeleteX}}, 1}))
 	add("watcher-eager-consumer", c05Scenario(c05Cfg{3, 1, "zero", "eager", [][]wop{{wCreateX, wUpdateX}}, 2}))
-	add("compactor-writer-reader", c07SchedScenario(c07Sched{hx.Mem, [][]reqKind{{rUpdOK}}, false, true}))
+	if tier == "thorough" {
+		add("compactor-writer-reader", c07SchedScenario(c07Sched{hx.Mem, [][]reqKind{{rUpdOK}}, false, true}))
+	} else {
+		add("compactor-writer", c07SchedScenario(c07Sched{hx.Mem, [][]reqKind{{rDelOK}}, false, false}))
+	}
 	add("list-then-watch", c06Scenario(c06Cfg{hx.Mem, [][]wop{{wCreateX, wDeleteP}}, false}))
 	add("two-compactions", &mc.Scenario{Body: func(x *mc.X) {
 		w := newWorld(hx.Mem, 16)
